@@ -443,6 +443,35 @@ impl Check for C02 {
                 typed.values[i].push((e, "extra_key".into()));
             }
         }
+        // now and then one more parser: a record whose key type is a template literal (not plain string).  The harness'
+        // denotations have string-keyed index signatures only, so this root is judged without the reference: its schema
+        // is well-formed, its references resolve, and whatever the schema admits the validator accepts.
+        if s.chance(1, 8) && typed.program.contains("\n}>();") {
+            let key = *s.pick(&["`x-${string}`", "`${string}-id`", "`a${string}`"]);
+            let (vt, vd) = match s.below(5) {
+                0 => ("unknown", D::Any),
+                1 => ("any", D::Any),
+                2 => ("string", D::Str),
+                3 => ("number", D::Num),
+                _ => ("{ a: string }", D::obj(vec![("a", D::Str, false)])),
+            };
+            let spelling = if s.chance(1, 2) { format!("{{ [k: {}]: {} }}", key, vt) } else { format!("Record<{}, {}>", key, vt) };
+            typed.program = typed.program.replacen("\n}>();", &format!("\n  PK: {};\n}}>();", spelling), 1);
+            typed.roots.push(("PK".to_string(), D::Object { props: vec![], index: Some(Box::new(vd)) }));
+            let o = |kv: Vec<(&str, JsVal)>| JsVal::Obj(kv.into_iter().map(|(k, v)| (k.to_string(), v)).collect(), crate::jsval::Proto::Plain);
+            let leaf = |s: &mut Src| match s.below(3) {
+                0 => JsVal::Str("a".into()),
+                1 => JsVal::num("1"),
+                _ => o(vec![("a", JsVal::Str("a".into()))]),
+            };
+            let mut vals = vec![(o(vec![]), "keyed".to_string())];
+            for k in ["x-a", "foo", "a", "a-id", "1", "x-a-id"] {
+                vals.push((o(vec![(k, leaf(s))]), "keyed".to_string()));
+            }
+            vals.push((o(vec![("x-a", leaf(s)), ("foo", leaf(s))]), "keyed".to_string()));
+            typed.values.push(vals);
+            typed.used.insert("keyed_record".to_string(), 1);
+        }
         let n_cfg = s.range(1, 2);
         let cfgs = (0..n_cfg).map(|_| gen_ctx_cfg(s)).collect();
         let doc_stream: Vec<u32> = (0..160).map(|_| s.raw()).collect();
@@ -677,6 +706,19 @@ impl Check for C02 {
                     let ms = strict.member(d, &jv);
                     let mo = open.member(d, &jv);
                     out.label(format!("doc:{}", src));
+                    if name == "PK" && t.used.contains_key("keyed_record") {
+                        // judged without the reference (see generate): the forward direction only
+                        out.label("keyed_record_doc");
+                        if sv && got == Some(false) {
+                            out.mismatch(
+                                ctx,
+                                "c02_schema_valid_validator_rejects:keyed_record",
+                                format!("{} [{}]: document {} is valid against the emitted schema but validate() rejects it", name, mode, doc),
+                                detail(json!({"doc": doc, "source": src})),
+                            );
+                        }
+                        continue;
+                    }
                     if sv {
                         if got == Some(false) {
                             // is the validator right to reject?  if the reference says the doc is a member, this is C01's subject
